@@ -21,6 +21,7 @@ FOLLOW = [
     "sl_1_4", "sl_2_", "sl__1", "sl_m2", "sl_s2", "sl_rev", "ix_1", "ix_m1", "ix_none", "tk_00", "tk_m1_0", "add1", "mul2", "neg", "gt12", "where_gt", "add_row",
     "T", "exp0", "flip", "cat_self", "stack0", "bcast", "rc2", "rc_all", "rc1",
     "sum", "sum0", "mean", "cumsum0", "cumsumm1_bl", "swv2_sum", "diff", "mb_double", "topk2", "nansum0", "sum_se2",
+    "plus_np_len1", "plus_np_len2", "plus_np_len3", "plus_np_len4", "plus_da_len2", "plus_da_len3", "plus_da_len4",
     "ravel", "rs_m1", "roll1", "maxm1", "min", "var_dd1", "std0", "argmax0", "argmin", "squeeze",
 ]
 
@@ -37,6 +38,9 @@ PRODUCERS_2D = {
     "rowmask": ("x[{mask0}]", "a[{mask0}]"),
     "colmask": ("x[:, {mask1}]", "a[:, {mask1}]"),
     "fullmask": ("x[x > {k}]", "a[a > {k}]"),
+    "coldaskmask": ("x[:, da.from_array({mask1}, chunks=2)]", "a[:, {mask1}]"),
+    "colcompress": ("da.compress(da.from_array({mask1}, chunks=3), x, axis=1)", "np.compress({mask1}, a, axis=1)"),
+    "rowdaskmask": ("x[da.from_array({mask0}, chunks=2)]", "a[{mask0}]"),
     "argwhere": ("da.argwhere(x > {k})", "np.argwhere(a > {k})"),
     "nonzero1": ("da.nonzero(x > {k})[1]", "np.nonzero(a > {k})[1]"),
 }
@@ -214,14 +218,14 @@ def plan(tier, seed):
         for ch in compositions(n):
             shards.append({"what": "1d", "n": n, "chunks": list(ch)})
     c2 = list(itertools.product(compositions(3), compositions(4)))
-    for c in c2[:: (6 if tier == "quick" else 2)]:
+    for c in c2[:: (5 if tier == "quick" else 2)]:
         shards.append({"what": "2d", "shape": [3, 4], "chunks": [list(k) for k in c]})
     return {
         "shards": shards,
         "coverage": {
             "exhaustive": True,
             "bounds": {"n_max_1d": nmax, "masks": "all 2^n for n<=4, patterns above", "follow_on_ops": len(FOLLOW), "producers": len(PRODUCERS_1D) + len(PRODUCERS_2D)},
-            "rule": "producers {x[NumPy mask], x[dask mask under several mask chunkings], x[x>k], unique, nonzero, flatnonzero, argwhere; 2-D row/column/full masks} over every chunking and every mask: (a) compute_chunk_sizes() sets each chunk to the true size of its block (taken from the executed graph), the shape equals NumPy's, and every follow-on op equals NumPy; (b) without it every op of the follow-on alphabet either raises or returns the NumPy value with the NumPy shape. Non-trivial = multi-block producer with at least one empty block",
+            "rule": "producers {x[NumPy mask], x[dask mask under several mask chunkings], x[x>k], unique, nonzero, flatnonzero, argwhere; 2-D row/column/full masks, NumPy and dask masks on either axis, compress} over every chunking and every mask: (a) compute_chunk_sizes() sets each chunk to the true size of its block (taken from the executed graph), the shape equals NumPy's, and every follow-on op equals NumPy; (b) without it every op of the follow-on alphabet either raises or returns the NumPy value with the NumPy shape. Non-trivial = multi-block producer with at least one empty block",
         },
         "assumptions": ["true block sizes are read from executing every block key", "any exception is an acceptable refusal while sizes are unknown"],
     }
